@@ -228,6 +228,30 @@ fn corpus(thorough: bool) -> Vec<String> {
             }
         }
     }
+    if thorough {
+        // every string at edit distance 2 (two substitutions, or a substitution and an insertion) from two bases
+        for b in ["20150830T123600Z", "2015-08-30T12:36:00+01:30"] {
+            let chars: Vec<char> = b.chars().collect();
+            for i in 0..chars.len() {
+                for a1 in &alphabet {
+                    for j in (i + 1)..chars.len() {
+                        for a2 in &alphabet {
+                            let mut c = chars.clone();
+                            c[i] = *a1;
+                            c[j] = *a2;
+                            set.insert(c.iter().collect());
+                        }
+                    }
+                    for j in 0..=chars.len() {
+                        let mut c = chars.clone();
+                        c[i] = *a1;
+                        c.insert(j, '0');
+                        set.insert(c.iter().collect());
+                    }
+                }
+            }
+        }
+    }
     for s in ["", " ", "T", "Z", "20150830", "20150830T", "20150830T1236Z", "2015-W35-7T12:36:00Z", "2015-242T12:36:00Z",
         "Sun, 30 Aug 2015 12:36:00 GMT", "1440938160", "20150830 123600Z", "20150830T123600Z\n", "\u{feff}20150830T123600Z"] {
         set.insert(s.to_string());
@@ -286,7 +310,7 @@ pub fn run(ctx: &Ctx) -> Report {
 
     Report {
         stats: st,
-        rule: "every value 00..99 of month, day, hour, minute, second, offset hour and offset minute (basic and extended form); 9 years x boundary instants; every day 00..32 of every month of 2015, 2016, 1900, 2000 in two forms; all 2^5 separator combinations; every offset hh(00..99) x mm(00..99) x sign (basic; extended for all in thorough); 12 zone designators; fractions of 0..12 digits with '.' and ','; every string at edit distance 1 (insert/delete/substitute over 23 characters incl. 3 non-ASCII) from six bases; each string is evaluated through the unstable API (value and string-to-sign line compared with the reference parser) and end to end on the header carrier (bare and space-padded) and the query carrier. states = distinct reference instants + reject class; non-trivial = distinct strings".into(),
+        rule: "every value 00..99 of month, day, hour, minute, second, offset hour and offset minute (basic and extended form); 9 years x boundary instants; every day 00..32 of every month of 2015, 2016, 1900, 2000 in two forms; all 2^5 separator combinations; every offset hh(00..99) x mm(00..99) x sign (basic; extended for all in thorough); 12 zone designators; fractions of 0..12 digits with '.' and ','; every string at edit distance 1 (insert/delete/substitute over 23 characters incl. 3 non-ASCII) from six bases (thorough: also every pair of substitutions and substitution+insertion on two bases); each string is evaluated through the unstable API (value and string-to-sign line compared with the reference parser) and end to end on the header carrier (bare and space-padded) and the query carrier. states = distinct reference instants + reject class; non-trivial = distinct strings".into(),
         bounds: json!({"strings": n}),
         exhaustive: true,
         assumptions: vec![
